@@ -1242,6 +1242,26 @@ pub fn generate(thorough: bool, seed: u64, out: &mut dyn Write) {
         let m = gen_model(&mut rng, &o);
         writeln!(out, "mut {} {} parse {}", rng.next() >> 1, 1 + rng.below(3), m.tokens()).unwrap();
     }
+    // vertex streams beyond 64 KiB (`stride * k` ≥ 2^16: 2800 vertices of 24 bytes, 3300 of 20 with
+    // a second stream of 4): the late vertices and the tail of the raw stream
+    {
+        let d = rng.bytes(2800 * 24);
+        let m = single_stream_model(
+            vec![GElem { stream: 0, offset: 0, ty: 2, usage: 0, uidx: 0 }, GElem { stream: 0, offset: 12, ty: 2, usage: 3, uidx: 0 }],
+            24,
+            2800,
+            d,
+        );
+        writeln!(out, "parse {}", m.tokens()).unwrap();
+        let d = rng.bytes(3300 * 20);
+        let m = single_stream_model(
+            vec![GElem { stream: 0, offset: 0, ty: 14, usage: 0, uidx: 0 }, GElem { stream: 0, offset: 8, ty: 2, usage: 3, uidx: 0 }],
+            20,
+            3300,
+            d,
+        );
+        writeln!(out, "parse {}", m.tokens()).unwrap();
+    }
     // wide tables (see `gen_wide`): the version-6 bone table at every boundary count on every run,
     // every other table once per run (thorough: 60 times)
     for n in [255usize, 256, 257, 300] {
